@@ -407,6 +407,12 @@ def main():
     known_hits = []
     notes = []
 
+    # steps 1-3 write shared files (NB/Gen, .lake, the cargo target directory): checks started in parallel take turns
+    import fcntl
+    os.makedirs(os.path.join(VERIF, "build"), exist_ok=True)
+    build_lock = open(os.path.join(VERIF, "build", ".build.lock"), "w")
+    fcntl.flock(build_lock, fcntl.LOCK_EX)
+
     # 1. translator
     info = extract.main()
     if info["stale"]:
@@ -469,6 +475,9 @@ def main():
                 machinery_errors.append("harness build failed (%s): %s" % (profile, out[-600:]))
                 continue
         bins[profile] = binp
+
+    fcntl.flock(build_lock, fcntl.LOCK_UN)
+    build_lock.close()
 
     # 4. requests
     rng = random.Random(seed)
